@@ -1022,50 +1022,44 @@ func runDIFFSHORTCUT(c *Ctx) {
 		return
 	}
 	P := c.P
-	fn := c.MustFunc("(*Mast).diffOne")
-	if fn == nil {
+	step := c.MustFunc("(*Mast).diffOne")
+	if step == nil {
 		return
 	}
+	bodies, ok := stepBodies(c, S, step)
+	if !ok {
+		c.Undecided(step, P.Pos(step.Pos()), "popped items not found", "the diff step does not pop exactly one item from the OLD stack and one from the NEW stack (as found by the side inference)")
+		return
+	}
+	tot := &scTotals{}
+	for _, b := range bodies {
+		shortcutBody(c, S, b, tot)
+	}
+	fpos := P.Pos(step.Pos())
+	if tot.cmps == 0 {
+		c.Violation(step, fpos, "no comparison of the old link with the new link",
+			fmt.Sprintf("%s (with the helpers it hands its items to) never compares the link of the item popped from the old stack with the link of the item popped from the new stack: subtrees common to both versions are not skipped, every diff loads both trees completely", step.Name()))
+	} else if tot.both == 0 {
+		c.Undecided(step, fpos, "no load in the both-links case", "the rule found the link comparison but no node load under `old link != nil && new link != nil`; the shape of the step is not the one the rule understands")
+	}
+}
+
+type scTotals struct{ cmps, both int }
+
+// shortcutBody checks one body of the step (the step itself, or a helper it
+// hands both items to, with the dispatching facts holding on entry).
+func shortcutBody(c *Ctx, S *sidesInfo, sb *stepBody, tot *scTotals) {
+	P := c.P
+	fn := sb.fn
 	fpos := P.Pos(fn.Pos())
-	// the two popped items
-	var oldItem, newItem *ssa.Call
-	var stackSlots = map[*sdSlot]bool{}
-	for _, ci := range CallsOf(fn) {
-		call, ok := ci.(*ssa.Call)
-		if !ok {
-			continue
-		}
-		if pc, sl := S.popOf(call); pc != nil {
-			stackSlots[sl] = true
-			switch sl.cur {
-			case sdOld:
-				if oldItem != nil {
-					c.Undecided(fn, P.InstrPos(ci), "two pops of the old stack", "the step pops the old stack more than once; the rule expects one item per side")
-					return
-				}
-				oldItem = pc
-			case sdNew:
-				if newItem != nil {
-					c.Undecided(fn, P.InstrPos(ci), "two pops of the new stack", "the step pops the new stack more than once; the rule expects one item per side")
-					return
-				}
-				newItem = pc
-			}
-		}
-	}
-	if oldItem == nil || newItem == nil {
-		c.Undecided(fn, fpos, "popped items not found", "the diff step does not pop one item from the OLD stack and one from the NEW stack (as found by the side inference)")
-		return
-	}
-	isLinkOf := func(v ssa.Value, item *ssa.Call) bool {
-		it, ok := S.itemLink(v)
-		return ok && it == ssa.Value(item)
-	}
-	isItem := func(v ssa.Value, item *ssa.Call) bool { return ir.ResolveCell(ir.Strip(v)) == ssa.Value(item) }
-	// facts of a block
+	oldItem, newItem := sb.old, sb.new
+	stackSlots := sb.stacks
+	isLinkOf := func(v ssa.Value, item ssa.Value) bool { return S.linkOfItem(v, item) }
+	isItem := func(v ssa.Value, item ssa.Value) bool { return sb.isItem(v, item) }
+	// facts of a block (with what is known on entry)
 	type bfacts struct{ oldLink, newLink, oldNil, newNil bool }
 	factsOf := func(b *ssa.BasicBlock) bfacts {
-		var f bfacts
+		f := bfacts{oldLink: sb.oldSt == isLink, newLink: sb.newSt == isLink, oldNil: sb.oldSt == isAbsent, newNil: sb.newSt == isAbsent}
 		for _, ft := range sdExpandFacts(ir.FactsAt(b), 0) {
 			v, tnn, ok := ir.NilTest(ft.Cond)
 			if !ok {
@@ -1094,6 +1088,9 @@ func runDIFFSHORTCUT(c *Ctx) {
 	for _, ci := range CallsOf(fn) {
 		if ir.DeadByConst(ci.Block()) {
 			continue
+		}
+		if sb.deleg[ci] {
+			continue // handled in the body of the callee
 		}
 		if ml, name := sdMayLoad(c, ci); ml {
 			loads = append(loads, lcall{ci, name})
@@ -1144,10 +1141,7 @@ func runDIFFSHORTCUT(c *Ctx) {
 			}
 		}
 	}
-	if len(cmps) == 0 {
-		c.Violation(fn, fpos, "no comparison of the old link with the new link",
-			fmt.Sprintf("%s never compares the link of the item popped from the old stack with the link of the item popped from the new stack: subtrees common to both versions are not skipped, every diff loads both trees completely", fn.Name()))
-	}
+	tot.cmps += len(cmps)
 	// (a) loads of the both-links case lie on an unequal edge
 	nBoth := 0
 	for _, l := range loads {
@@ -1171,9 +1165,7 @@ func runDIFFSHORTCUT(c *Ctx) {
 				fmt.Sprintf("both items carry a link, and %s (which may read a node) runs without the old and the new link having been found different: an unchanged subtree is loaded instead of skipped", l.name))
 		}
 	}
-	if nBoth == 0 && len(cmps) > 0 {
-		c.Undecided(fn, fpos, "no load in the both-links case", "the rule found the link comparison but no node load under `old link != nil && new link != nil`; the shape of the step is not the one the rule understands")
-	}
+	tot.both += nBoth
 	// (b) the equal edge: no load, no push back; (c) no load before the comparison
 	for _, ct := range cmps {
 		pos := P.InstrPos(ct.bin)
@@ -1206,7 +1198,10 @@ func runDIFFSHORTCUT(c *Ctx) {
 			c.OK(pos, "equal-link edge of "+fn.Name(), "returns without a load and without pushing an item; no load precedes the comparison", false)
 		}
 	}
-	// (d) both stacks empty: ErrNoMoreDiffs without a load
+	// (d) both stacks empty: ErrNoMoreDiffs without a load (the step itself only)
+	if sb.depth > 0 {
+		return
+	}
 	nEnd := 0
 	for _, r := range ir.Returns(fn) {
 		ei := ir.ErrorResultIndex(fn.Signature)
@@ -2173,11 +2168,24 @@ func runDIFFREADS(c *Ctx) {
 // subtrees are never met link against link).
 func diffReadsSameKey(c *Ctx, S *sidesInfo, step *ssa.Function) {
 	P := c.P
-	oldItem, newItem, stacks, ok := stepItems(S, step)
+	bodies, ok := stepBodies(c, S, step)
 	if !ok {
 		c.Undecided(step, P.Pos(step.Pos()), "popped items not found", "the diff step does not pop one item per side")
 		return
 	}
+	n := 0
+	for _, sb := range bodies {
+		n += diffReadsSameKeyBody(c, S, sb)
+	}
+	if n == 0 {
+		c.Undecided(step, P.Pos(step.Pos()), "no comparison of the first keys of the two loaded nodes",
+			"the rule expects the both-links case to compare a key of the old node with a key of the new node through the key order")
+	}
+}
+
+func diffReadsSameKeyBody(c *Ctx, S *sidesInfo, sb *stepBody) int {
+	P := c.P
+	step, oldItem, newItem, stacks := sb.fn, sb.old, sb.new, sb.stacks
 	n := 0
 	poison := S.Poisoned() // values whose side is unknown because of a call SIDES reports
 	for _, ci := range CallsOf(step) {
@@ -2292,10 +2300,7 @@ func diffReadsSameKey(c *Ctx, S *sidesInfo, step *ssa.Function) {
 			c.OK(pos, "first keys equal (cmp == 0) in "+step.Name(), "both nodes are expanded, no item is pushed back", false)
 		}
 	}
-	if n == 0 {
-		c.Undecided(step, P.Pos(step.Pos()), "no comparison of the first keys of the two loaded nodes",
-			"the rule expects the both-links case to compare a key of the old node with a key of the new node through the key order")
-	}
+	return n
 }
 
 // sdAccessRoot follows field/element/load steps of an access path to its base.
@@ -2503,120 +2508,59 @@ func (S *sidesInfo) offersLink(ci ssa.CallInstruction, item ssa.Value, notified 
 // being reported.
 func notifyConsumed(c *Ctx, S *sidesInfo, step, notified *ssa.Function) {
 	P := c.P
-	oldItem, newItem, stacks, ok := stepItems(S, step)
+	bodies, ok := stepBodies(c, S, step)
 	if !ok {
 		c.Undecided(step, P.Pos(step.Pos()), "popped items not found", "the diff step does not pop one item per side")
 		return
 	}
-	isLinkOf := func(v ssa.Value, item *ssa.Call) bool {
-		it, ok := S.itemLink(v)
-		return ok && it == ssa.Value(item)
-	}
-	// equal-link edges
-	type edge struct{ from, to *ssa.BasicBlock }
-	var eqEdges []edge
-	for _, b := range step.Blocks {
-		for _, ins := range b.Instrs {
-			bin, isB := ins.(*ssa.BinOp)
-			if !isB || (bin.Op != token.EQL && bin.Op != token.NEQ) {
-				continue
-			}
-			if !(isLinkOf(bin.X, oldItem) && isLinkOf(bin.Y, newItem)) && !(isLinkOf(bin.X, newItem) && isLinkOf(bin.Y, oldItem)) {
-				continue
-			}
-			ifs, _ := sdCondIfs(bin)
-			for _, i := range ifs {
-				to := i.OnTrue
-				if bin.Op == token.NEQ {
-					to = i.OnFalse
+	for _, sb := range bodies {
+		for _, sd := range sb.sides() {
+			item := sd.item
+			blocked := map[*ssa.BasicBlock]bool{}
+			nOffer := 0
+			for _, ci := range CallsOf(sb.fn) {
+				if S.offersLink(ci, item, notified) {
+					blocked[ci.Block()] = true
+					nOffer++
+					continue
 				}
-				eqEdges = append(eqEdges, edge{i.If.Block(), to})
-			}
-		}
-	}
-	ei := ir.ErrorResultIndex(step.Signature)
-	for _, sd := range []struct {
-		item *ssa.Call
-		s    side
-	}{{oldItem, sdOld}, {newItem, sdNew}} {
-		item := sd.item
-		other := oldItem
-		if item == oldItem {
-			other = newItem
-		}
-		blocked := map[*ssa.BasicBlock]bool{}
-		nOffer := 0
-		for _, ci := range CallsOf(step) {
-			if S.offersLink(ci, item, notified) {
-				blocked[ci.Block()] = true
-				nOffer++
-				continue
-			}
-			callee := ir.Callee(ci.Common())
-			if callee == nil || !S.slice[callee] {
-				continue
-			}
-			onStack, same := false, false
-			for _, a := range ci.Common().Args {
-				if sl := S.slotRef(a); sl != nil && stacks[sl] {
-					onStack = true
-				} else if ir.ResolveCell(ir.Strip(a)) == ssa.Value(item) {
-					same = true
+				if sb.handsOn(ci, item) {
+					blocked[ci.Block()] = true // the callee's body is checked with this item
+					continue
 				}
-			}
-			if ml, _ := sdMayLoad(c, ci); onStack && same && !ml {
-				blocked[ci.Block()] = true // pushed back unchanged by a pure stack operation
-			}
-		}
-		// valuations: this item exists and carries a link; the other item is
-		// absent (0), an entry (1) or a link (2) — repeated tests of the same
-		// field are thereby answered consistently
-		reach := map[*ssa.BasicBlock]bool{}
-		for otherState := 0; otherState < 3; otherState++ {
-			leaf := func(cond ssa.Value) (bool, bool) {
-				v, tnn, ok := ir.NilTest(cond)
-				if !ok {
-					return false, false
+				callee := ir.Callee(ci.Common())
+				if callee == nil || !S.slice[callee] {
+					continue
 				}
-				nonNil, known := false, false
-				switch {
-				case ir.ResolveCell(ir.Strip(v)) == ssa.Value(item) || isLinkOf(v, item):
-					nonNil, known = true, true
-				case ir.ResolveCell(ir.Strip(v)) == ssa.Value(other):
-					nonNil, known = otherState != 0, true
-				case isLinkOf(v, other) && otherState != 0:
-					nonNil, known = otherState == 2, true
-				}
-				if !known {
-					return false, false
-				}
-				return nonNil == tnn, true
-			}
-			for b := range ir.ReachableFrom(step.Blocks[0], func(from, to *ssa.BasicBlock) bool {
-				return notifyPruned(from, to, blocked, leaf, func(f, t *ssa.BasicBlock) bool {
-					for _, e := range eqEdges {
-						if e.from == f && e.to == t {
-							return true
-						}
+				onStack, same := false, false
+				for _, a := range ci.Common().Args {
+					if sl := S.slotRef(a); sl != nil && sb.stacks[sl] {
+						onStack = true
+					} else if sb.isItem(a, item) {
+						same = true
 					}
-					return false
-				})
-			}) {
-				reach[b] = true
+				}
+				if ml, _ := sdMayLoad(c, ci); onStack && same && !ml {
+					blocked[ci.Block()] = true // pushed back unchanged by a pure stack operation
+				}
 			}
-		}
-		bad := false
-		for _, r := range ir.Returns(step) {
-			if !reach[r.Block()] || ei < 0 || !ir.IsNilConst(r.Results[ei]) {
+			reach, relevant := stepConsumeReach(S, sb, sd, blocked)
+			if !relevant {
 				continue
 			}
-			c.Violation(step, P.InstrPos(r), fmt.Sprintf("%s link consumed without being offered to %s", sd.s, notified.Name()),
-				fmt.Sprintf("the step can return successfully with the %s item carrying a link, the links not being equal, the item not pushed back, and %s never asked about that link: a node of the %s version is descended through without being reported to the link callback", sd.s, notified.Name(), sd.s))
-			bad = true
-		}
-		if !bad {
-			c.OK(P.InstrPos(item), fmt.Sprintf("%s link item of %s", sd.s, step.Name()),
-				fmt.Sprintf("every successful path either pushes it back unchanged, takes the equal-link edge, or passes one of %d notification(s)", nOffer), false)
+			bad := false
+			for _, r := range ir.Returns(sb.fn) {
+				if !reach[r.Block()] || !sdMaySucceed(S, sb.fn, r) {
+					continue
+				}
+				c.Violation(sb.fn, P.InstrPos(r), fmt.Sprintf("%s link consumed without being offered to %s", sd.s, notified.Name()),
+					fmt.Sprintf("%s can return successfully with the %s item carrying a link, the links not being equal, the item not pushed back, and %s never asked about that link: a node of the %s version is descended through without being reported to the link callback", sb.fn.Name(), sd.s, notified.Name(), sd.s))
+				bad = true
+			}
+			if !bad {
+				c.OK(sdValuePos(P, sb.fn, item), fmt.Sprintf("%s link item in %s", sd.s, sb.fn.Name()),
+					fmt.Sprintf("every successful path either pushes it back unchanged, hands it on, takes the equal-link edge, or passes one of %d notification(s)", nOffer), false)
+			}
 		}
 	}
 }
@@ -2737,11 +2681,18 @@ func notifyPruned(from, to *ssa.BasicBlock, blocked map[*ssa.BasicBlock]bool, le
 // other side is not expanded there (its item goes back unchanged), or the
 // two sides get out of level and whole unchanged paths are read.
 func diffReadsPassThrough(c *Ctx, S *sidesInfo, step *ssa.Function) {
-	P := c.P
-	_, _, stacks, ok := stepItems(S, step)
+	bodies, ok := stepBodies(c, S, step)
 	if !ok {
 		return // reported by the same-key clause
 	}
+	for _, sb := range bodies {
+		diffReadsPassThroughBody(c, S, sb)
+	}
+}
+
+func diffReadsPassThroughBody(c *Ctx, S *sidesInfo, sb *stepBody) {
+	P := c.P
+	step, stacks := sb.fn, sb.stacks
 	// blocks under a fact len(<node of side s>.Link) == 1
 	passSide := func(b *ssa.BasicBlock) (side, ssa.Value) {
 		for _, f := range ir.FactsAt(b) {
@@ -2895,18 +2846,89 @@ func sdFailEdges(c *Ctx, S *sidesInfo, fn *ssa.Function, depth int) []sdFailEdge
 
 // ---- shared: paths of the step that consume a link item ------------------------------
 
-// stepConsumeReach: the blocks of the step reachable from its entry when
-// `item` exists and carries a link (the other item being absent, an entry or
-// a link — each valuation pruned consistently), without entering a blocked
-// block and without taking the edge on which the old and the new link are equal.
-func stepConsumeReach(S *sidesInfo, step *ssa.Function, item, other *ssa.Call, blocked map[*ssa.BasicBlock]bool) map[*ssa.BasicBlock]bool {
-	isLinkOf := func(v ssa.Value, it *ssa.Call) bool {
-		x, ok := S.itemLink(v)
-		return ok && x == ssa.Value(it)
+// bodySide is one of the two items of a step body.
+type bodySide struct {
+	item, other     ssa.Value
+	itemSt, otherSt int
+	s               side
+	stack           *sdSlot
+}
+
+func (b *stepBody) sides() []bodySide {
+	var out []bodySide
+	if b.old != nil {
+		out = append(out, bodySide{b.old, b.new, b.oldSt, b.newSt, sdOld, b.oldStack})
 	}
+	if b.new != nil {
+		out = append(out, bodySide{b.new, b.old, b.newSt, b.oldSt, sdNew, b.newStack})
+	}
+	return out
+}
+
+// handsOn: ci passes item to a child body.
+func (b *stepBody) handsOn(ci ssa.CallInstruction, item ssa.Value) bool {
+	if !b.deleg[ci] {
+		return false
+	}
+	for _, a := range ci.Common().Args {
+		if b.isItem(a, item) {
+			return true
+		}
+	}
+	return false
+}
+
+func sdValuePos(P *ir.Program, fn *ssa.Function, v ssa.Value) string {
+	if ins, ok := v.(ssa.Instruction); ok {
+		return P.InstrPos(ins)
+	}
+	return P.Pos(fn.Pos())
+}
+
+// sdMaySucceed: the return may report success — its error operand is the nil
+// constant, or the result of a call of a function of the diff (whose own body
+// decides).
+func sdMaySucceed(S *sidesInfo, fn *ssa.Function, r *ssa.Return) bool {
+	ei := ir.ErrorResultIndex(fn.Signature)
+	if ei < 0 || ei >= len(r.Results) {
+		return true
+	}
+	op := r.Results[ei]
+	if ir.IsNilConst(op) {
+		return true
+	}
+	if nilFactOn(r.Block(), op, false) {
+		return false // only reached with the error non-nil
+	}
+	if ex, ok := op.(*ssa.Extract); ok {
+		op = ex.Tuple
+	}
+	if call, ok := op.(*ssa.Call); ok {
+		if cal := ir.Callee(call.Common()); cal != nil && S.slice[cal] {
+			return true
+		}
+	}
+	return false
+}
+
+// stepConsumeReach: the blocks of a step body reachable from its entry when
+// the item of side sd exists and carries a link (the other item being absent,
+// an entry or a link — what is known on entry restricts this; each valuation
+// is pruned consistently), without entering a blocked block and without
+// taking the edge on which the old and the new link are equal. relevant is
+// false if the item is known not to be a link in this body.
+func stepConsumeReach(S *sidesInfo, sb *stepBody, sd bodySide, blocked map[*ssa.BasicBlock]bool) (map[*ssa.BasicBlock]bool, bool) {
+	if sd.itemSt == isAbsent || sd.itemSt == isEntry {
+		return nil, false
+	}
+	if blocked[sb.fn.Blocks[0]] {
+		return map[*ssa.BasicBlock]bool{}, true // the entry block itself discharges the obligation
+	}
+	item, other := sd.item, sd.other
+	isLinkOf := func(v ssa.Value, it ssa.Value) bool { return S.linkOfItem(v, it) }
 	type edge struct{ from, to *ssa.BasicBlock }
 	var eqEdges []edge
-	for _, b := range step.Blocks {
+	for _, b := range sb.fn.Blocks {
 		for _, ins := range b.Instrs {
 			bin, isB := ins.(*ssa.BinOp)
 			if !isB || (bin.Op != token.EQL && bin.Op != token.NEQ) {
@@ -2933,8 +2955,17 @@ func stepConsumeReach(S *sidesInfo, step *ssa.Function, item, other *ssa.Call, b
 		}
 		return false
 	}
+	var states []int
+	switch {
+	case sd.otherSt != isUnknown:
+		states = []int{sd.otherSt}
+	case other == nil:
+		states = []int{isUnknown}
+	default:
+		states = []int{isAbsent, isEntry, isLink}
+	}
 	reach := map[*ssa.BasicBlock]bool{}
-	for otherState := 0; otherState < 3; otherState++ {
+	for _, otherState := range states {
 		leaf := func(cond ssa.Value) (bool, bool) {
 			v, tnn, ok := ir.NilTest(cond)
 			if !ok {
@@ -2942,25 +2973,25 @@ func stepConsumeReach(S *sidesInfo, step *ssa.Function, item, other *ssa.Call, b
 			}
 			nonNil, known := false, false
 			switch {
-			case ir.ResolveCell(ir.Strip(v)) == ssa.Value(item) || isLinkOf(v, item):
+			case sb.isItem(v, item) || isLinkOf(v, item):
 				nonNil, known = true, true
-			case ir.ResolveCell(ir.Strip(v)) == ssa.Value(other):
-				nonNil, known = otherState != 0, true
-			case isLinkOf(v, other) && otherState != 0:
-				nonNil, known = otherState == 2, true
+			case sb.isItem(v, other) && otherState != isUnknown:
+				nonNil, known = otherState != isAbsent, true
+			case isLinkOf(v, other) && (otherState == isEntry || otherState == isLink):
+				nonNil, known = otherState == isLink, true
 			}
 			if !known {
 				return false, false
 			}
 			return nonNil == tnn, true
 		}
-		for b := range ir.ReachableFrom(step.Blocks[0], func(from, to *ssa.BasicBlock) bool {
+		for b := range ir.ReachableFrom(sb.fn.Blocks[0], func(from, to *ssa.BasicBlock) bool {
 			return notifyPruned(from, to, blocked, leaf, isEq)
 		}) {
 			reach[b] = true
 		}
 	}
-	return reach
+	return reach, true
 }
 
 // ---- EXPANDALL --------------------------------------------------------------------
@@ -2975,50 +3006,54 @@ func runEXPANDALL(c *Ctx) {
 	if step == nil {
 		return
 	}
-	oldItem, newItem, _, ok := stepItems(S, step)
+	bodies, ok := stepBodies(c, S, step)
 	if !ok {
 		c.Undecided(step, P.Pos(step.Pos()), "popped items not found", "the diff step does not pop one item per side")
 		return
 	}
-	ei := ir.ErrorResultIndex(step.Signature)
-	for _, sd := range []struct {
-		item, other *ssa.Call
-		s           side
-	}{{oldItem, newItem, sdOld}, {newItem, oldItem, sdNew}} {
-		_, stack := S.popOf(sd.item)
-		blocked := map[*ssa.BasicBlock]bool{}
-		nPush := 0
-		for _, ci := range CallsOf(step) {
-			callee := ir.Callee(ci.Common())
-			if callee == nil || !S.slice[callee] {
-				continue
-			}
-			if call, isCall := ci.(*ssa.Call); isCall {
-				if pc, _ := S.popOf(call); pc != nil {
+	for _, sb := range bodies {
+		for _, sd := range sb.sides() {
+			blocked := map[*ssa.BasicBlock]bool{}
+			nPush := 0
+			for _, ci := range CallsOf(sb.fn) {
+				if sb.handsOn(ci, sd.item) {
+					blocked[ci.Block()] = true // the callee's body is checked with this item
 					continue
 				}
-			}
-			for _, a := range ci.Common().Args {
-				if sl := S.slotRef(a); sl != nil && sl == stack {
-					blocked[ci.Block()] = true
-					nPush++
-					break
+				callee := ir.Callee(ci.Common())
+				if callee == nil || !S.slice[callee] {
+					continue
+				}
+				if call, isCall := ci.(*ssa.Call); isCall {
+					if pc, _ := S.popOf(call); pc != nil {
+						continue
+					}
+				}
+				for _, a := range ci.Common().Args {
+					if sl := S.slotRef(a); sl != nil && sl == sd.stack {
+						blocked[ci.Block()] = true
+						nPush++
+						break
+					}
 				}
 			}
-		}
-		reach := stepConsumeReach(S, step, sd.item, sd.other, blocked)
-		bad := false
-		for _, r := range ir.Returns(step) {
-			if !reach[r.Block()] || ei < 0 || !ir.IsNilConst(r.Results[ei]) {
+			reach, relevant := stepConsumeReach(S, sb, sd, blocked)
+			if !relevant {
 				continue
 			}
-			c.Violation(step, P.InstrPos(r), fmt.Sprintf("%s link item consumed without anything pushed on the %s stack", sd.s, sd.s),
-				fmt.Sprintf("the step can return successfully with the %s item carrying a link (not equal to the other side's), and neither that item nor the children of its node were pushed onto %s: the whole subtree silently drops out of the diff", sd.s, stack.name))
-			bad = true
-		}
-		if !bad {
-			c.OK(P.InstrPos(sd.item), fmt.Sprintf("%s link item of %s", sd.s, step.Name()),
-				fmt.Sprintf("every successful path that consumes it passes one of the %d pushes onto %s", nPush, stack.name), false)
+			bad := false
+			for _, r := range ir.Returns(sb.fn) {
+				if !reach[r.Block()] || !sdMaySucceed(S, sb.fn, r) {
+					continue
+				}
+				c.Violation(sb.fn, P.InstrPos(r), fmt.Sprintf("%s link item consumed without anything pushed on the %s stack", sd.s, sd.s),
+					fmt.Sprintf("%s can return successfully with the %s item carrying a link (not equal to the other side's), and neither that item nor the children of its node were pushed onto %s: the whole subtree silently drops out of the diff", sb.fn.Name(), sd.s, sd.stack.name))
+				bad = true
+			}
+			if !bad {
+				c.OK(sdValuePos(P, sb.fn, sd.item), fmt.Sprintf("%s link item in %s", sd.s, sb.fn.Name()),
+					fmt.Sprintf("every successful path that consumes it hands it on or passes one of the %d pushes onto %s", nPush, sd.stack.name), false)
+			}
 		}
 	}
 }
@@ -3574,4 +3609,118 @@ func sdPathHasField(v ssa.Value, name string) bool {
 		}
 	}
 	return false
+}
+
+// ---- step bodies: the diff step and the case methods it dispatches to ----------------
+
+// item states known on entry to a body
+const (
+	isUnknown = 0
+	isAbsent  = 1 // the item is nil
+	isEntry   = 2 // the item exists and its link is nil
+	isLink    = 3 // the item exists and carries a link
+)
+
+// stepBody is a function that handles (a part of) one diff step: the step
+// itself, with the two popped items, or a helper it hands an item to — then
+// the items are the helper's parameters, and what the call site knows about
+// them (the dispatching condition) holds on entry.
+type stepBody struct {
+	fn       *ssa.Function
+	old, new ssa.Value // the items in fn (pop result or parameter); nil if not available here
+	oldSt    int
+	newSt    int
+	stacks   map[*sdSlot]bool
+	oldStack *sdSlot
+	newStack *sdSlot
+	deleg    map[ssa.CallInstruction]bool // calls that hand an item on to a child body
+	depth    int
+}
+
+func (b *stepBody) isItem(v, item ssa.Value) bool {
+	return item != nil && ir.ResolveCell(ir.Strip(v)) == item
+}
+
+func (S *sidesInfo) linkOfItem(v, item ssa.Value) bool {
+	if item == nil {
+		return false
+	}
+	it, ok := S.itemLink(v)
+	return ok && it == item
+}
+
+// itemState: what the facts dominating block blk (plus the facts inherited on
+// entry) say about an item of body b.
+func (S *sidesInfo) itemState(b *stepBody, blk *ssa.BasicBlock, item ssa.Value, inherited int) int {
+	st := inherited
+	if item == nil {
+		return st
+	}
+	for _, ft := range sdExpandFacts(ir.FactsAt(blk), 0) {
+		v, tnn, ok := ir.NilTest(ft.Cond)
+		if !ok {
+			continue
+		}
+		nonNil := ft.Truth == tnn
+		switch {
+		case b.isItem(v, item):
+			if !nonNil {
+				st = isAbsent
+			}
+		case S.linkOfItem(v, item):
+			if nonNil {
+				st = isLink
+			} else {
+				st = isEntry
+			}
+		}
+	}
+	return st
+}
+
+// stepBodies enumerates the step and the helpers (two levels) that receive
+// one of its items as a parameter.
+func stepBodies(c *Ctx, S *sidesInfo, step *ssa.Function) ([]*stepBody, bool) {
+	oldItem, newItem, stacks, ok := stepItems(S, step)
+	if !ok {
+		return nil, false
+	}
+	_, os := S.popOf(oldItem)
+	_, ns := S.popOf(newItem)
+	root := &stepBody{fn: step, old: oldItem, new: newItem, stacks: stacks, oldStack: os, newStack: ns, deleg: map[ssa.CallInstruction]bool{}}
+	out := []*stepBody{root}
+	notified, prim := c.P.MastFunc("(*Mast).alreadyNotified"), c.P.MastFunc("(*Mast).load")
+	for qi := 0; qi < len(out); qi++ {
+		b := out[qi]
+		if b.depth >= 2 {
+			continue
+		}
+		for _, ci := range CallsOf(b.fn) {
+			callee := ir.Callee(ci.Common())
+			if callee == nil || !S.slice[callee] || S.poly[callee] || callee == b.fn || callee == notified || callee == prim {
+				continue
+			}
+			var po, pn ssa.Value
+			for i, a := range ci.Common().Args {
+				if i >= len(callee.Params) {
+					break
+				}
+				switch {
+				case b.isItem(a, b.old):
+					po = callee.Params[i]
+				case b.isItem(a, b.new):
+					pn = callee.Params[i]
+				}
+			}
+			if po == nil && pn == nil {
+				continue
+			}
+			b.deleg[ci] = true
+			child := &stepBody{fn: callee, old: po, new: pn, stacks: stacks, oldStack: os, newStack: ns, deleg: map[ssa.CallInstruction]bool{}, depth: b.depth + 1,
+				oldSt: S.itemState(b, ci.Block(), b.old, b.oldSt), newSt: S.itemState(b, ci.Block(), b.new, b.newSt)}
+			// an item that is not handed on and not known absent is simply not visible in the child
+			out = append(out, child)
+		}
+	}
+	return out, true
 }
